@@ -181,10 +181,18 @@ def run(chk, w):
                 created[a["name"]] = (f, c, cond)
     chk.floor("thread_handles", len(created), 3)
     joined = {}
+    via_table = {}
     for j in joins:
         h = _handle(stop, j)
         if h:
             joined[h] = j
+        else:
+            # `for (i = 0; i < N; i++) { pthread_t *const handle = table[i]; if (*handle != 0) { pthread_join(*handle, NULL); *handle = 0; } }`
+            tb = _table_handles(P, stop, j)
+            if tb:
+                for h in tb[0]:
+                    joined[h] = j
+                    via_table[h] = tb[1]
     for h, (f, c, cond) in sorted(created.items()):
         if h not in joined:
             chk.violation("C16-JOIN", stop.name, h, c.loc(), "thread handle %s is created but never joined by the stop routine" % h)
@@ -193,6 +201,15 @@ def run(chk, w):
         # guarded by handle != 0 and reset to 0 after the join (needed when creation is conditional or start can fail before creation)
         resets = [s for s in stop.all_insts() if s.op == "store" and s["ptr"].get("k") == "global" and s["ptr"]["name"] == h and rules.const_of(stop, s["val"]) == 0 and stop.dominates(j, s)]
         guarded = any(True for (gd, truth) in rules.branch_conditions(stop, j) if _mentions_global(stop, gd["cond"], h))
+        if h in via_table:
+            # the handle is reached through the table's pointer kept in a local: test and reset go through that same local
+            cell = via_table[h]
+            def _thru(o):
+                src = rules.load_source(stop, o)
+                return bool(src) and src[0] == "alloca" and src[1] == cell
+            resets = [s for s in stop.all_insts() if s.op == "store" and rules.const_of(stop, s["val"]) == 0 and stop.dominates(j, s) and _thru(s["ptr"])]
+            guarded = any(True for (gd, truth) in rules.branch_conditions(stop, j)
+                          if any(l.op == "load" and _thru(l["ptr"]) for l in _cond_loads(stop, gd["cond"])))
         if resets and guarded:
             chk.ok("C16-JOIN", 1, {"handle": h, "conditional_creation": cond})
         elif not guarded:
@@ -323,6 +340,53 @@ def _enum(P, name):
 def _handle(f, join):
     src = rules.load_source(f, join.args[0])
     return src[1] if src and src[0] == "global" else None
+
+
+def _cond_loads(f, o, depth=0):
+    i = f.resolve(o) if o.get("k") == "inst" else None
+    if i is None or depth > 6:
+        return []
+    if i.op == "load":
+        return [i]
+    out = []
+    for k in ("a", "b"):
+        if k in i.d and isinstance(i[k], dict):
+            out += _cond_loads(f, i[k], depth + 1)
+    return out
+
+
+def _table_handles(P, f, join):
+    """join of `*handle` with handle = table[i] inside a loop over the whole constant table of handle addresses -> (handle globals, local holding the pointer)"""
+    v = f.resolve(rules.strip_casts(f, join.args[0]))
+    if v is None or v.op != "load":
+        return None
+    src = rules.load_source(f, v["ptr"])
+    if not src or src[0] != "alloca":
+        return None
+    cell = src[1]
+    e = f.resolve(rules.resolve_local(f, v["ptr"]))
+    if e is None or e.op != "load":
+        return None
+    g = f.resolve(e["ptr"])
+    if g is None or g.op != "getelementptr" or g["base"].get("k") != "global" or len(g["idx"]) != 1:
+        return None
+    gd = P.globals.get(g["base"]["name"])
+    if not gd or not gd.get("const") or not isinstance(gd.get("init"), list):
+        return None
+    names = [x.get("g") for x in gd["init"] if isinstance(x, dict) and x.get("off", 0) == 0]
+    if len(names) != len(gd["init"]) or not names:
+        return None
+    # the subscript counts from 0 up to the number of entries
+    isrc = rules.load_source(f, g["idx"][0]["v"])
+    if not isrc or isrc[0] != "alloca":
+        return None
+    sts = [s for s in f.all_insts() if s.op == "store" and s["ptr"].get("k") == "inst" and s["ptr"]["id"] == isrc[1]]
+    zero = any(rules.const_of(f, s["val"]) == 0 for s in sts)
+    bound = any(c.op == "icmp" and c["pred"] in ("ult", "slt", "ne") and rules.const_of(f, c["b"]) == len(names) and (rules.load_source(f, c["a"]) or (None, None))[1] == isrc[1]
+                for c in f.all_insts())
+    if not (zero and bound and len(sts) == 2):
+        return None
+    return names, cell
 
 
 def _mentions_global(f, cond, g):
